@@ -182,3 +182,23 @@ _add(
          "applied to the observed pre-step state, with a guard band around the threshold decision.",
     technique="runtime monitoring: per-step invariants + float64 one-step reference model on the real neuron forward() over generated drives",
 )
+
+_add(
+    "C05",
+    rule="dense / direct / lateral connections with random multi-dimensional in/out shapes, batch 1-4, bias on/off and "
+         "random real currents injected through a delta-plus synapse (zero spikes), 1-3 steps each; conv2d geometries "
+         "(H,W 3-9, C,F 1-3, rectangular kernels 1-3, stride 1-3 incl. rectangular, padding 0-2, dilation 1-2, non-empty "
+         "output): quick samples ~440, thorough additionally enumerates the whole square-input grid; every forward is "
+         "compared with F.linear / element-wise / masked matmul / F.conv2d, the advertised output shape with the "
+         "reference operator's, like_input(like_synaptic(x)) with x on the positions read, and the receptive views "
+         "contracted with the weight with the forward output; lateral diagonal invariant after each of 4-14 random "
+         "mutating operations (weight/delay assignment, updater application, clamp / normalise hooks, forward). "
+         "distinct = geometry / shape-class abstractions.",
+    required=["forward_checks", "conv_geometries", "helper_checks", "lateral_diagonal_checks"],
+    floor={"quick": 150, "thorough": 3000},
+    exhaustive={"thorough": ["conv2d: all square inputs 3..9, C,F in 1..3, kernels 1..3 x 1..3, stride 1..3, padding 0..2, dilation 1..2 with non-empty output"]},
+    text="Held on every input and geometry explored: the real connections (float64) are driven with arbitrary real "
+         "synaptic currents and their outputs compared with PyTorch's reference operators; reshaping helpers are tied to "
+         "the map by contraction with the weight; the lateral mask is asserted after every mutating operation.",
+    technique="runtime monitoring: reference-operator oracle (F.linear / F.conv2d) + diagonal invariant on the real connection classes",
+)
